@@ -1,5 +1,158 @@
-(* C16 — placeholder; the theorems are added as BT/*Proofs.v land *)
+(* C16 (policy half) — Bigtable: garbage collection removes exactly what the GC rules condemn.
+   Only statements here; proofs are in BT/GcProofs.v.  (The concurrency half of C16 — writes racing
+   with a pass — is not about this sequential model.) *)
 From Coq Require Import List NArith ZArith Bool.
-From Emu.BT Require Import Types Mutate Server.
-Example C16_model_runs : snd (step nil (mkCall (BGetTable nil) 0%Z nil)) = fail cNotFound.
-Proof. reflexivity. Qed.
+Import ListNotations.
+From Emu.Common Require Import Bytes Str StrProofs.
+From Emu.BT Require Import Types Mutate Gc Server CellSpec CellProofs GcProofs MutateProofs.
+Local Open Scope Z_scope.
+
+(* the policy *)
+Theorem C16_condemned_max_versions : forall n now idx c, 0 <= n ->
+  condemned (GMaxVersions n) now idx c = (Z.to_nat n <=? idx)%nat.
+Proof. exact max_versions_exact. Qed.
+Print Assumptions C16_condemned_max_versions.
+
+Theorem C16_condemned_max_age : forall secs nanos now idx c,
+  condemned (GMaxAge secs nanos) now idx c = (c_ts c <? gc_cutoff secs nanos now).
+Proof. exact max_age_boundary. Qed.
+Print Assumptions C16_condemned_max_age.
+
+Theorem C16_condemned_union : forall rs now idx c,
+  condemned (GUnion rs) now idx c = existsb (fun r => condemned r now idx c) rs.
+Proof. exact condemned_union. Qed.
+Print Assumptions C16_condemned_union.
+
+(* boundary: a cell exactly at the cut-off is retained *)
+Theorem C16_cutoff_retained : forall secs nanos now idx c,
+  c_ts c = gc_cutoff secs nanos now -> condemned (GMaxAge secs nanos) now idx c = false.
+Proof. exact max_age_cutoff_retained. Qed.
+Print Assumptions C16_cutoff_retained.
+
+(* applyGC keeps exactly the cells that are not condemned (descending column) *)
+Theorem C16_apply_gc_is_filter : forall rule now cells, desc cells ->
+  apply_gc cells rule now = filter_idx (fun i c => negb (condemned rule now i c)) 0 cells.
+Proof. exact apply_gc_is_filter. Qed.
+Print Assumptions C16_apply_gc_is_filter.
+
+(* for any list at all it cuts at the first condemned cell ... *)
+Theorem C16_apply_gc_take : forall rule now cells,
+  apply_gc cells rule now = take_idx (retained rule now) 0 cells.
+Proof. exact apply_gc_take. Qed.
+Print Assumptions C16_apply_gc_take.
+
+(* ... so the result is a prefix: it never invents, alters or reorders cells *)
+Theorem C16_apply_gc_prefix : forall rule now cells,
+  apply_gc cells rule now = firstn (length (apply_gc cells rule now)) cells.
+Proof. exact apply_gc_prefix. Qed.
+Print Assumptions C16_apply_gc_prefix.
+
+Theorem C16_apply_gc_subset : forall rule now cells c, In c (apply_gc cells rule now) -> In c cells.
+Proof. exact apply_gc_subset. Qed.
+Print Assumptions C16_apply_gc_subset.
+
+(* monotone condemnation down a descending column *)
+Theorem C16_condemned_mono : forall rule now i j c d,
+  (i <= j)%nat -> c_ts d <= c_ts c -> condemned rule now i c = true -> condemned rule now j d = true.
+Proof. exact condemned_mono. Qed.
+Print Assumptions C16_condemned_mono.
+
+Theorem C16_max_versions_negative : forall n now cells, n < 0 -> apply_gc cells (GMaxVersions n) now = cells.
+Proof. exact max_versions_negative. Qed.
+Print Assumptions C16_max_versions_negative.
+
+(* one row: families without a rule / with an unsupported rule are returned untouched, the other
+   families column by column through apply_gc *)
+Theorem C16_gc_fam_untouched : forall tf now f,
+  match alookup (fam_name f) tf with Some (Some GOther) | Some None | None => True | _ => False end ->
+  gc_fam tf now f = f.
+Proof. exact gc_fam_untouched. Qed.
+Print Assumptions C16_gc_fam_untouched.
+
+Theorem C16_gc_cells_of : forall tf now fs f q,
+  cells_of (snd (gc_fams tf now fs)) f q
+  = match alookup f tf with
+    | Some (Some rule) => apply_gc (cells_of fs f q) rule now
+    | _ => cells_of fs f q
+    end.
+Proof. exact gc_cells_of. Qed.
+Print Assumptions C16_gc_cells_of.
+
+Theorem C16_gc_unchanged : forall tf now fs, fst (gc_fams tf now fs) = false -> snd (gc_fams tf now fs) = fs.
+Proof. exact gc_unchanged. Qed.
+Print Assumptions C16_gc_unchanged.
+
+(* the pass over a table *)
+Theorem C16_gc_pass_spec : forall t now, table_ok t ->
+  let t' := gc_pass t now in
+  table_ok t' /\ t_fams t' = t_fams t
+  /\ (forall key, gc_content (t_fams t) now (get_row t key) (get_row t' key))
+  /\ (forall key, alookup key (t_rows t') = None <-> forall f q ts, abs_fams (get_row t' key) f q ts = None).
+Proof. exact gc_pass_spec. Qed.
+Print Assumptions C16_gc_pass_spec.
+
+(* the request: other tables untouched, invariant kept *)
+Theorem C16_gc_step_spec : forall s tbl now coins, server_ok s ->
+  let '(s', rsp) := step s (mkCall (BRunGC tbl) now coins) in
+  server_ok s'
+  /\ (forall n, n <> tbl -> alookup n s' = alookup n s)
+  /\ match alookup tbl s with
+     | Some t => alookup tbl s' = Some (gc_pass t now) /\ rsp = ok YNone
+     | None => s' = s /\ rsp = fail cNotFound
+     end.
+Proof. exact gc_step_spec. Qed.
+Print Assumptions C16_gc_step_spec.
+
+(* non-vacuity: a descending column; the cut-off falls exactly on a cell; unions *)
+Example C16_nonvacuous :
+  let cells := [mkCell 9000 [1%N] []; mkCell 7000 [2%N] []; mkCell 5000 [3%N] []; mkCell 1000 [4%N] []] in
+  desc cells
+  /\ gc_cutoff 0 3000000 8000 = 5000
+  /\ apply_gc cells (GMaxAge 0 3000000) 8000 = firstn 3 cells
+  /\ apply_gc cells (GMaxVersions 2) 8000 = firstn 2 cells
+  /\ apply_gc cells (GUnion [GMaxVersions 3; GMaxAge 0 1000000]) 8000 = firstn 2 cells
+  /\ apply_gc cells (GUnion [GOther; GMaxVersions (-1)]) 8000 = cells.
+Proof. exact gc_example. Qed.
+
+(* a table on which the pass removes a whole row and trims another *)
+Example C16_nonvacuous_table :
+  let tf := [([102%N], Some (GMaxAge 0 0)); ([103%N], None)] in
+  let t := mkTable tf
+             [([97%N], [mkFam [102%N] [mkCol [113%N] [mkCell 1000 [1%N] []]]]);
+              ([98%N], [mkFam [102%N] [mkCol [113%N] [mkCell 9000 [1%N] []; mkCell 2000 [2%N] []]];
+                        mkFam [103%N] [mkCol [113%N] [mkCell 1000 [5%N] []]]])] in
+  gc_pass t 5000
+  = mkTable tf [([98%N], [mkFam [102%N] [mkCol [113%N] [mkCell 9000 [1%N] []]];
+                          mkFam [103%N] [mkCol [113%N] [mkCell 1000 [5%N] []]]])].
+Proof. vm_compute. reflexivity. Qed.
+
+(* the same table reached by a client history (hence server_ok, by C01_history), then a GC request *)
+Definition gc_tbl : bytes := [112; 47; 116; 97; 98; 108; 101; 115; 47; 116]%N.   (* "p/tables/t" *)
+Definition gc_history : list call :=
+  [ mkCall (BCreateTable [112%N] [116%N] [([102%N], Some (GMaxAge 0 0)); ([103%N], None)]) 0 [];
+    mkCall (BMutateRow gc_tbl [97%N] [SetCell [102%N] [113%N] 1000 [1%N]]) 0 [];
+    mkCall (BMutateRow gc_tbl [98%N] [SetCell [102%N] [113%N] 9000 [1%N]; SetCell [102%N] [113%N] 2000 [2%N];
+                                      SetCell [103%N] [113%N] 1000 [5%N]]) 0 [] ].
+
+Example C16_nonvacuous_history :
+  let s := fst (run [] gc_history) in
+  server_ok s
+  /\ (exists t, alookup gc_tbl s = Some t /\ table_ok t /\ length (t_rows t) = 2%nat)
+  /\ exists t', alookup gc_tbl (fst (step s (mkCall (BRunGC gc_tbl) 5000 []))) = Some t'
+       /\ t_rows t' = [([98%N], [mkFam [102%N] [mkCol [113%N] [mkCell 9000 [1%N] []]];
+                                 mkFam [103%N] [mkCol [113%N] [mkCell 1000 [5%N] []]]])].
+Proof.
+  assert (Hs : server_ok (fst (run [] gc_history))) by apply MutateProofs.C01_history.
+  split; [exact Hs|]. split.
+  - assert (Hl : alookup gc_tbl (fst (run [] gc_history)) = Some (mkTable
+        [([102%N], Some (GMaxAge 0 0)); ([103%N], None)]
+        [([97%N], [mkFam [102%N] [mkCol [113%N] [mkCell 1000 [1%N] []]]]);
+         ([98%N], [mkFam [102%N] [mkCol [113%N] [mkCell 9000 [1%N] []; mkCell 2000 [2%N] []]];
+                   mkFam [103%N] [mkCol [113%N] [mkCell 1000 [5%N] []]]])])) by (vm_compute; reflexivity).
+    eexists. split; [exact Hl|]. split; [|reflexivity].
+    eapply server_ok_lookup; [exact Hs|exact Hl].
+  - exists (mkTable [([102%N], Some (GMaxAge 0 0)); ([103%N], None)]
+             [([98%N], [mkFam [102%N] [mkCol [113%N] [mkCell 9000 [1%N] []]];
+                        mkFam [103%N] [mkCol [113%N] [mkCell 1000 [5%N] []]]])]).
+    split; vm_compute; reflexivity.
+Qed.
